@@ -110,7 +110,7 @@ theorem load_rejects_called (vm : Rs.Vm) (f : Nat) (arg : Option Rs.Value) (r : 
 /-- What the caller `c` looks like once it is parked: the handed-over argument is gone from its stack, its resume point is the current
 instruction; nothing else of it changes. -/
 def leftBehind (vm : Rs.Vm) (popArg : Bool) : Rs.FiberRec :=
-  { vm.currentRec with stack := if popArg then vm.stack.dropLast else vm.stack, frameIp := vm.ip }
+  { vm.currentRec with stack := if popArg then vm.stack.dropLast else vm.stack, frameIp := vm.ip, handling := vm.handling }
 
 /-- What the target finds on its stack: a new fiber its closure and the argument, a resumed one the argument (or nil) in the slot of its
 pending yield. -/
@@ -120,7 +120,7 @@ def handedOver (r : Rs.FiberRec) (arg : Option Rs.Value) : List Rs.Value :=
 /-- The state after a successful switch from the running fiber `c` to the parked fiber `f`. -/
 def afterLoad (vm : Rs.Vm) (c f : Nat) (r : Rs.FiberRec) (arg : Option Rs.Value) : Rs.Vm :=
   { vm.withRec r with
-      stack := handedOver r arg, caller := some c, ip := r.frameIp,
+      stack := handedOver r arg, caller := some c, ip := r.frameIp, handling := r.handling,
       curId := some f, unsafeId := some f,
       parked := Rs.eraseFiber ((c, leftBehind vm arg.isSome) :: Rs.eraseFiber vm.parked c) f }
 
@@ -164,7 +164,8 @@ def leaveStage (arg : Option Rs.Value) (vm_ : Rs.Vm) : Rs.M Rs.Vm :=
   let vm_ := j_5;
   (Rs.M.bind (Rs.Vm.setFrameIp vm_ vm_.ip) fun t_6 =>
   (let vm_ := t_6;
-  (Rs.M.ok vm_))))
+  (let vm_ := { vm_ with fiberHandling := vm_.handling };
+  (Rs.M.ok vm_)))))
   else
   (Rs.M.ok vm_))
 
@@ -197,7 +198,7 @@ theorem load_stages (f : Nat) (arg : Option Rs.Value) (vm : Rs.Vm) :
         else if r.caller.isSome then .ok (.error errCalled, vm)
         else Rs.M.bind (leaveStage arg vm) fun vm1 =>
           Rs.M.bind (Rs.Vm.replaceFiber { vm1 with unsafeId := some f } (some f)) fun p =>
-            enterStage arg { p.2 with caller := p.1 } := by
+            enterStage arg { p.2 with caller := p.1, handling := p.2.fiberHandling } := by
   unfold Fns.vm_load_fiber leaveStage enterStage
   dsimp only
   generalize Rs.Vm.fiberRec vm f = x
@@ -215,7 +216,7 @@ theorem load_stages (f : Nat) (arg : Option Rs.Value) (vm : Rs.Vm) :
 
 theorem leaveStage_eq (arg : Option Rs.Value) (vm : Rs.Vm) (c : Nat) (hcur : vm.curId = some c)
     (hstack : arg.isSome = true → vm.stack ≠ []) (hframes : 0 < vm.frames) :
-    leaveStage arg vm = .ok { vm with stack := if arg.isSome then vm.stack.dropLast else vm.stack, frameIp := vm.ip } := by
+    leaveStage arg vm = .ok { vm with stack := if arg.isSome then vm.stack.dropLast else vm.stack, frameIp := vm.ip, fiberHandling := vm.handling } := by
   have hnf : ¬ (vm.frames ≤ 0) := by omega
   unfold leaveStage
   simp only [hcur, Option.isSome_some, if_true]
@@ -277,7 +278,7 @@ theorem load_first_effect (vm : Rs.Vm) (f : Nat) (arg : Option Rs.Value) (r : Rs
     (hcur : vm.curId = none) (hr : Rs.lookupFiber vm.parked f = some r)
     (hfr : 0 < r.frames) (hcaller : r.caller = none) (hslot : r.isNew = false → r.stack ≠ []) :
     Fns.vm_load_fiber f arg vm = .ok (.ok (), { vm.withRec r with
-      stack := handedOver r arg, caller := none, ip := r.frameIp, curId := some f, unsafeId := some f,
+      stack := handedOver r arg, caller := none, ip := r.frameIp, handling := r.handling, curId := some f, unsafeId := some f,
       parked := Rs.eraseFiber vm.parked f }) := by
   have hrec : Rs.Vm.fiberRec vm f = .ok r := by
     unfold Rs.Vm.fiberRec
@@ -324,6 +325,16 @@ theorem load_target_keeps (vm : Rs.Vm) (c f : Nat) (r : Rs.FiberRec) (arg : Opti
       ∧ (afterLoad vm c f r arg).errorIp = r.errorIp := by
   simp [afterLoad, Rs.Vm.withRec]
 
+/-- The exception-in-flight flag travels with its fiber (repair F53): the caller is parked with the flag as it stood, and the flag the
+target runs with is the one it was parked with - whatever the caller did in between. -/
+theorem load_flag_travels (vm : Rs.Vm) (c f : Nat) (r : Rs.FiberRec) (arg : Option Rs.Value) (hne : c ≠ f) :
+    (afterLoad vm c f r arg).handling = r.handling
+      ∧ (Rs.lookupFiber (afterLoad vm c f r arg).parked c).map (·.handling) = some vm.handling := by
+  constructor
+  · simp [afterLoad]
+  · rw [load_parks_caller vm c f r arg hne]
+    simp [leftBehind]
+
 /-! ### unload_fiber -/
 
 /-- `if arg.is_some() { self.pop(); } if !has_finished() { <current frame>.ip = self.ip; }` -/
@@ -344,6 +355,7 @@ def yieldStage (arg : Option Rs.Value) (vm_ : Rs.Vm) : Rs.M Rs.Vm :=
 
 /-- the switch back, once the caller is known -/
 def backStage (arg : Option Rs.Value) (caller : Nat) (vm_ : Rs.Vm) : Rs.M ((Except Rs.Err Unit) × Rs.Vm) :=
+  (let vm_ := { vm_ with fiberHandling := vm_.handling };
   (Rs.M.bind (Rs.Vm.replaceFiber vm_ (some caller)) fun r_ =>
   let t_5 := r_.1; let vm_ := r_.2;
   (let current := t_5;
@@ -351,11 +363,13 @@ def backStage (arg : Option Rs.Value) (caller : Nat) (vm_ : Rs.Vm) : Rs.M ((Exce
   (Rs.M.bind (Rs.unwrap current) fun t_6 =>
   (Rs.M.bind (Rs.Vm.setCallerOf vm_ t_6 none) fun t_7 =>
   (let vm_ := t_7;
+  (let handling_exception := vm_.fiberHandling;
+  (let vm_ := { vm_ with handling := handling_exception };
   (Rs.M.bind (Rs.Vm.poke vm_ (0 : Int) ((arg).getD Rs.Value.None)) fun t_8 =>
   (let vm_ := t_8;
   (Rs.M.bind (Rs.Vm.loadFrame vm_) fun t_9 =>
   (let vm_ := t_9;
-  (Rs.M.ok ((.ok ()), vm_))))))))))))
+  (Rs.M.ok ((.ok ()), vm_)))))))))))))))
 
 theorem unload_stages (arg : Option Rs.Value) (vm : Rs.Vm) :
     Fns.vm_unload_fiber arg vm =
@@ -381,7 +395,7 @@ theorem unload_stages (arg : Option Rs.Value) (vm : Rs.Vm) :
 that has just finished has no frame left to record one in), and it no longer has a caller. -/
 def yielded (vm : Rs.Vm) (popArg : Bool) : Rs.FiberRec :=
   { vm.currentRec with stack := if popArg then vm.stack.dropLast else vm.stack,
-                       frameIp := if vm.frames = 0 then vm.frameIp else vm.ip, caller := none }
+                       frameIp := if vm.frames = 0 then vm.frameIp else vm.ip, caller := none, handling := vm.handling }
 
 theorem yieldStage_eq (arg : Option Rs.Value) (vm : Rs.Vm) (hstack : arg.isSome = true → vm.stack ≠ []) (hframes : 0 ≤ vm.frames) :
     yieldStage arg vm = .ok { vm with stack := if arg.isSome then vm.stack.dropLast else vm.stack,
@@ -414,7 +428,7 @@ theorem unload_no_caller (vm : Rs.Vm) (arg : Option Rs.Value) (hc : vm.caller = 
 /-- The state after the running fiber `y` handed control back to its caller `c`. -/
 def afterUnload (vm : Rs.Vm) (y c : Nat) (rc : Rs.FiberRec) (arg : Option Rs.Value) : Rs.Vm :=
   { vm.withRec rc with
-      stack := rc.stack.dropLast ++ [arg.getD .None], ip := rc.frameIp,
+      stack := rc.stack.dropLast ++ [arg.getD .None], ip := rc.frameIp, handling := rc.handling,
       curId := some c, unsafeId := some c,
       parked := (y, yielded vm arg.isSome)
         :: Rs.eraseFiber (Rs.eraseFiber ((y, { yielded vm arg.isSome with caller := some c }) :: Rs.eraseFiber vm.parked y) c) y }
@@ -428,6 +442,7 @@ theorem unload_effect (vm : Rs.Vm) (y c : Nat) (arg : Option Rs.Value) (rc : Rs.
   rw [unload_stages, yieldStage_eq arg vm hstack hframes]
   simp only [Rs.M.bind_ok, hcaller]
   unfold backStage
+  dsimp only
   rw [replace_parked _ y c rc (by simpa using hcur) hne (by simpa using hr)]
   simp only [Rs.M.bind_ok, Rs.unwrap]
   have hset : ∀ (w : Rs.Vm) (ps : List (Nat × Rs.FiberRec)) (ry : Rs.FiberRec), w.curId = some c → w.parked = Rs.eraseFiber ((y, ry) :: ps) c →
@@ -467,6 +482,14 @@ theorem unload_caller_keeps (vm : Rs.Vm) (y c : Nat) (rc : Rs.FiberRec) (arg : O
       ∧ (afterUnload vm y c rc arg).stack = rc.stack.dropLast ++ [arg.getD .None] := by
   simp [afterUnload, Rs.Vm.withRec]
 
+theorem unload_flag_travels (vm : Rs.Vm) (y c : Nat) (rc : Rs.FiberRec) (arg : Option Rs.Value) :
+    (afterUnload vm y c rc arg).handling = rc.handling
+      ∧ (Rs.lookupFiber (afterUnload vm y c rc arg).parked y).map (·.handling) = some vm.handling := by
+  constructor
+  · simp [afterUnload]
+  · rw [unload_parks_yielder]
+    simp [yielded]
+
 /-- Non-vacuity: a concrete two-fiber state meets the hypotheses of `load_effect` and of `unload_effect`. -/
 def demoRec : Rs.FiberRec :=
   { stack := [], handlers := [], frames := 1, frameIp := 40, returnIp := none, returnValue := .None, errorIp := none, caller := none,
@@ -495,6 +518,8 @@ example : Fns.vm_unload_fiber (some (.Number 9)) { (afterLoad demoVm 0 3 demoRec
 #print axioms load_parks_caller
 #print axioms load_isolation
 #print axioms load_target_keeps
+#print axioms load_flag_travels
+#print axioms unload_flag_travels
 #print axioms unload_stages
 #print axioms unload_no_caller
 #print axioms unload_effect
